@@ -4,7 +4,7 @@ from typing import List, Optional
 from glom import glom, T, S, Spec, Val, PathAccessError, Path
 import glom.core as gc
 
-from vkit.common import start, reach, fail, known_open, concretize
+from vkit.common import start, reach, fail, known_open, concretize, OUT
 from vkit.ob import Ob
 import vkit.stubs  # noqa: F401
 
@@ -213,6 +213,101 @@ def nested_arg(shape: int, x: int, y: int, w: int, k: int, xs: List[int], i: int
     return got == exp or fail(why='value', got=got, exp=exp)
 
 
+# ---- literal arguments of every other kind are passed through literally ------------------------
+import collections as _collections
+
+Point = _collections.namedtuple('Point', 'x y')
+
+
+class LitList(list):
+    pass
+
+
+class LitDict(dict):
+    pass
+
+
+def literal_args(kind: int, pos: int, x: int, y: int) -> bool:
+    """kind: which literal; pos: 0 call argument, 1 item index, 2 keyword argument, 3 arithmetic operand.
+    Containers that are exactly tuple/list/dict/set/frozenset are rebuilt (equal value, same type, embedded T evaluated);
+    anything else -- subclasses such as a namedtuple included -- reaches the operation as the very same object."""
+    start()
+    kind, x, y = concretize(kind, 0, 11), concretize(x, 0, 1), concretize(y, 2, 3)
+    if kind is OUT or x is OUT or y is OUT:
+        return True
+    rec = Rec()
+    lits = [Point(x, y), LitList([x, y]), LitDict(k=x), (x, 'a', None), frozenset([1, 2]), 'a.b', 3.5, None, len, b'bytes',
+            (T['a'], 'lit'), [T['a'], {'k': T['b']}]]
+    lit = lits[kind]
+    exact_rebuilt = type(lit) in (tuple, list, dict, set, frozenset)
+    expect = lit
+    if kind == 10:
+        expect = (x, 'lit')
+    elif kind == 11:
+        expect = [x, {'k': y}]
+    t = {'a': x, 'b': y, 'f': rec, 'cells': {Point(x, y): 'cell', (x, 'a', None): 'tup', 'a.b': 'str', None: 'none', 3.5: 'flt',
+                                              frozenset([1, 2]): 'fs', (x, 'lit'): 'evaluated'}}
+    if pos == 0:
+        glom(t, T['f'](lit), glom_debug=True)
+        got = rec.calls[0][0][0]
+    elif pos == 2:
+        glom(t, T['f'](kw=lit), glom_debug=True)
+        got = rec.calls[0][1]['kw']
+    elif pos == 1:
+        try:
+            hash(lit)
+        except TypeError:
+            return True
+        if expect not in t['cells']:
+            return True
+        got_v = glom(t, T['cells'][lit], glom_debug=True)
+        reach('literal_index')
+        return got_v == t['cells'][expect] or fail(why='index literal', got=got_v)
+    else:
+        if kind not in (0, 3, 10):
+            return True
+        base = (0,)
+        got = glom({'a': x, 'b': y, 'base': base}, T['base'] + lit, glom_debug=True)
+        reach('literal_operand')
+        return (got == base + tuple(expect) and type(got) is tuple) or fail(why='operand literal', got=got)
+    reach('literal_arg')
+    if exact_rebuilt:
+        ok = got == expect and type(got) is type(expect)
+    else:
+        ok = got is lit
+    return ok or fail(why='literal argument not passed through as documented', got=got, lit=lit, kind=kind)
+
+
+def build_twice(op: int, k1: int, k2: int, x: int) -> bool:
+    """two expressions built one after the other that differ only in an equal-valued literal of another type
+    (1, 1.0, True): each evaluates like its own Python expression"""
+    start()
+    k1, k2, x = concretize(k1, 0, 4), concretize(k2, 0, 4), concretize(x, -2, 2)
+    if k1 is OUT or k2 is OUT or x is OUT:
+        return True
+    lits = [1, 1.0, True, 2, 2.0]
+    a, b = lits[k1], lits[k2]
+    first = apply_op(T['v'], op, a)
+    second = apply_op(T['v'], op, b)
+    t = {'v': x}
+    ok = True
+    for spec, lit in ((first, a), (second, b)):
+        try:
+            exp = ('ok', apply_op(x, op, lit))
+        except (TypeError, ZeroDivisionError) as e:
+            exp = ('err', type(e))
+        try:
+            got = ('ok', glom(t, spec, glom_debug=True))
+        except PathAccessError as e:
+            got = ('err', type(e.exc))
+        if exp[0] != got[0]:
+            return fail(why='outcome kind', got=got, exp=exp, lit=lit)
+        if exp[0] == 'ok' and not (got[1] == exp[1] and type(got[1]) is type(exp[1])):
+            return fail(why='value or result type differs from the Python expression', got=got, exp=exp, lit=lit)
+    reach('build_twice')
+    return ok
+
+
 # ---- access chains: .attr  [key]  [i]  [i:j:k]  .method(args) -----------------------------------
 class NS:
     def __init__(self, **kw):
@@ -400,6 +495,10 @@ def obligations(tier):
                 obs.append(Ob(access3, fixed={'c0': c0, 'c1': c1}, pre='0 <= c2 < %d and len(xs) <= 4' % N_STEP_KINDS,
                               name='access3_%d_%d_any' % (c0, c1)))
     obs.append(Ob(slice_full, pre='len(xs) <= 4', name='slice_full'))
+    for pos in range(4):
+        obs.append(Ob(literal_args, fixed={'pos': pos}, pre='0 <= kind <= 11 and 0 <= x <= 1 and 2 <= y <= 3', name='literal_args_pos%d' % pos))
+    for op in (ADD, MUL, FLOORDIV, MOD, TRUEDIV, OR):
+        obs.append(Ob(build_twice, fixed={'op': op}, pre='0 <= k1 <= 4 and 0 <= k2 <= 4 and -2 <= x <= 2', name='build_twice_%s' % OPNAMES_ID[op]))
     for w in range(6):
         obs.append(Ob(method_call, fixed={'which': w}, pre='len(xs) <= 3', name='method_call_%d' % w))
     # vacuity twins
@@ -412,4 +511,7 @@ def obligations(tier):
     obs.append(Ob(access2, fixed={'c0': 7}, pre='0 <= c1 < %d and len(xs) <= 3' % N_STEP_KINDS, twin='access_value',
                   name='access2_7'))
     obs.append(Ob(slice_full, pre='len(xs) <= 4', twin='slice', name='slice_full'))
+    obs.append(Ob(literal_args, fixed={'pos': 0}, pre='0 <= kind <= 11 and 0 <= x <= 1 and 2 <= y <= 3', twin='literal_arg', name='literal_args_pos0'))
+    obs.append(Ob(literal_args, fixed={'pos': 1}, pre='0 <= kind <= 11 and 0 <= x <= 1 and 2 <= y <= 3', twin='literal_index', name='literal_args_pos1'))
+    obs.append(Ob(build_twice, fixed={'op': MUL}, pre='0 <= k1 <= 4 and 0 <= k2 <= 4 and -2 <= x <= 2', twin='build_twice', name='build_twice_mul'))
     return obs
